@@ -640,6 +640,7 @@ for cfg in ('abacus', 'stdsqrt'):
       extra_flags=['--unsigned-overflow-check'], ignore_desc=r'overflow on unsigned (-|unary minus|shl)', backends=MULBE, timeout=900, native_post='native_hypot_ok')
 # accuracy clause, deductively (spec/c14.hpp): 48 slices by the bit length of a.v, 0 <= b <= a
 K_SQRT_HYP_1ULP = (SQRT, 'pre_sqrt_hyp', 'post_sqrt_hyp_1ulp')
+U('C14', 'c14.acc.slices_cover', 'lem_c14_slices_cover', 'pre_c14_ordered', None, lemma=True, cxx='lem_c14_slices_cover($1,$2)', backends=('sat', 'kissat'), timeout=300)
 U('C14', 'c14.sqrt_contract', 'lem_c14_sqrt_contract', 'pre_c14_sqrtc', None, lemma=True, cxx='lem_c14_sqrt_contract($1,$2)', **INTQ)
 for cfg, _tier in (('abacus', 'quick'), ('stdsqrt', 'thorough')):
     for _L in range(48):
